@@ -424,15 +424,33 @@ fn stream_inner(c: &FCase, st: &mut Stats) -> Result<(), String> {
                 }
             }
             FOp::Poll => {
+                let rx0 = dev.with(|d| d.h.rx_sizes.len());
                 let r = g!(what, mgr.poll());
-                let Some((p, payload)) = unpolled.pop_front() else {
+                if unpolled.is_empty() {
                     if r != Ok(None) {
                         return Err(format!("{}: nothing pending but poll returned {:?}", what, r));
                     }
                     continue;
-                };
+                }
+                // One poll may work through several delivered packets (read off the receive
+                // buffers that came back); only the last can be the source of the result, the
+                // earlier ones must be packets that yield no event (credit requests).
+                settle(&dev);
+                let batch = (dev.with(|d| d.h.rx_sizes.len()) - rx0).clamp(1, unpolled.len());
+                let mut requests_in_batch = 0usize;
+                for nth in 0..batch - 1 {
+                    let (q, _) = unpolled.pop_front().unwrap();
+                    if q.op != 7 {
+                        return Err(format!("{}: this poll consumed {} packets; packet {} (op {}) produces an event but was not the last one, so its event was lost", what, batch, nth + 1, q.op));
+                    }
+                    drv_view_alloc = q.buf_alloc;
+                    drv_view_fwd = q.fwd_cnt;
+                    requests_in_batch += 1;
+                }
+                let (p, payload) = unpolled.pop_front().unwrap();
                 drv_view_alloc = p.buf_alloc;
                 drv_view_fwd = p.fwd_cnt;
+                let mut tx_poll: Option<Vec<Pkt>> = None;
                 match p.op {
                     5 => {
                         match &r {
@@ -444,6 +462,7 @@ fn stream_inner(c: &FCase, st: &mut Stats) -> Result<(), String> {
                         }
                         buffered.extend(payload.iter().copied());
                         let tx = check_tx!(what);
+                        tx_poll = Some(tx.clone());
                         // an unsolicited credit update (its header was checked above) is the
                         // implementation's choice; anything else is not
                         if tx.iter().any(|p| p.op != 6) {
@@ -455,18 +474,26 @@ fn stream_inner(c: &FCase, st: &mut Stats) -> Result<(), String> {
                         if !matches!(&r, Ok(Some(e)) if e.event_type == VsockEventType::CreditUpdate) {
                             return Err(format!("{}: credit update returned {:?}", what, r));
                         }
-                        let _ = check_tx!(what);
+                        tx_poll = Some(check_tx!(what));
                     }
                     7 => {
                         if r != Ok(None) {
                             return Err(format!("{}: credit request returned {:?}", what, r));
                         }
-                        let tx = check_tx!(what);
-                        if tx.len() != 1 || tx[0].op != 6 {
-                            return Err(format!("{}: credit request answered with {:?}", what, tx.iter().map(|p| p.op).collect::<Vec<_>>()));
-                        }
+                        requests_in_batch += 1;
                     }
                     _ => {}
+                }
+                if requests_in_batch > 0 {
+                    // every credit request is answered with a credit update (further, unsolicited
+                    // ones are the implementation's choice), and with nothing else
+                    let tx = match tx_poll {
+                        Some(t) => t,
+                        None => check_tx!(what),
+                    };
+                    if tx.len() < requests_in_batch || tx.iter().any(|p| p.op != 6) {
+                        return Err(format!("{}: {} credit request(s) answered with {:?}", what, requests_in_batch, tx.iter().map(|p| p.op).collect::<Vec<_>>()));
+                    }
                 }
                 let avail = g!(what, mgr.available(peer_addr, PORT));
                 if avail != Ok(buffered.len()) {
@@ -524,13 +551,23 @@ fn stream_inner(c: &FCase, st: &mut Stats) -> Result<(), String> {
     }
     // drain: everything the peer sent must come out, in order
     loop {
-        while let Some((p, payload)) = unpolled.pop_front() {
+        while !unpolled.is_empty() {
+            let rx0 = dev.with(|d| d.h.rx_sizes.len());
             let r = g!("drain poll", mgr.poll());
-            if p.op == 5 {
-                if !matches!(&r, Ok(Some(_))) {
-                    return Err(format!("drain: data packet returned {:?}", r));
+            settle(&dev);
+            let batch = (dev.with(|d| d.h.rx_sizes.len()) - rx0).clamp(1, unpolled.len());
+            for nth in 0..batch {
+                let (p, payload) = unpolled.pop_front().unwrap();
+                let last = nth + 1 == batch;
+                if !last && p.op != 7 {
+                    return Err(format!("drain: one poll consumed {} packets; packet {} (op {}) produces an event but was not the last one, so its event was lost", batch, nth + 1, p.op));
                 }
-                buffered.extend(payload.iter().copied());
+                if p.op == 5 {
+                    if !matches!(&r, Ok(Some(_))) {
+                        return Err(format!("drain: data packet returned {:?}", r));
+                    }
+                    buffered.extend(payload.iter().copied());
+                }
             }
             let _ = check_tx!("drain");
         }
